@@ -757,7 +757,9 @@ func (path *Path) PrependAsn(asn uint32, repeat uint8, confed bool) {
 			if int(repeat)+len(asList) > 255 {
 				repeat = uint8(255 - len(asList))
 			}
-			newAsList := append(asns[:int(repeat)], asList...)
+			// cap the slice: appending in place would overwrite the tail of
+			// asns, which becomes the next segment when repeat was reduced
+			newAsList := append(asns[:int(repeat):int(repeat)], asList...)
 			asPath.Value[0] = bgp.NewAs4PathParam(segType, newAsList)
 			asns = asns[int(repeat):]
 		}
